@@ -1,54 +1,13 @@
 // U-RESNODE prelude, part 2 (trusted text; everything here is ASSUMED, not proved).
 //
-// (1) STAND-INS for the node impls of `Resolvable` that sit in a RECURSIVE cycle through the generic combinators
-//     (Expression <-> Box<Expression> / Vec<Expression> / Reference / ReferenceStep / MemberExpression;  ValueType <-> Box<ValueType>;
+// (1) (historical) the node impls of `Resolvable` that sit in a RECURSIVE cycle through the generic combinators used to be stand-ins
+//     here; they are now all verified by the induction scheme of prelude/resnode_rec.rs.  What follows explains the obstacle:
+//     (Expression <-> Box<Expression> / Vec<Expression> / Reference / ReferenceStep / MemberExpression;
 //      Statement <-> Box<Statement> / Vec<Statement> / Else is handled differently, see prelude/resnode_rec.rs).
 //     Verus rejects such an impl outright ("found a cyclic self-reference in a definition": the impl for E uses the impl for
 //     Box<E>, whose bound T: Resolvable is satisfied by the impl for E), so these impls cannot be put under the trait contract in
 //     this unit.  Each is declared with UNINTERPRETED errs / poisoned / resolves_to / pre and is ASSUMED to meet the trait-level
 //     contract - the same assumption U-COLLECT made for Declaration, now pushed one level down.
-pub uninterp spec fn expression_errs(e: Expression) -> Seq<Error>;
-pub uninterp spec fn expression_poisoned(e: Expression) -> bool;
-pub uninterp spec fn expression_resolves_to(e: Expression, x: resolved::Expression) -> bool;
-pub uninterp spec fn expression_pre(e: Expression) -> bool;
-impl Resolvable for Expression
-{
-	type Item = resolved::Expression;
-	open spec fn pre(self) -> bool { expression_pre(self) }
-	open spec fn errs(self) -> Seq<Error> { expression_errs(self) }
-	open spec fn poisoned(self) -> bool { expression_poisoned(self) }
-	open spec fn resolves_to(self, x: Self::Item) -> bool { expression_resolves_to(self, x) }
-	#[verifier::external_body]
-	fn resolve(self) -> (r: Result<Self::Item, Errors>) { unimplemented!() }
-}
-pub uninterp spec fn reference_errs(s: Reference) -> Seq<Error>;
-pub uninterp spec fn reference_poisoned(s: Reference) -> bool;
-pub uninterp spec fn reference_resolves_to(s: Reference, x: resolved::Reference) -> bool;
-pub uninterp spec fn reference_pre(s: Reference) -> bool;
-impl Resolvable for Reference
-{
-	type Item = resolved::Reference;
-	open spec fn pre(self) -> bool { reference_pre(self) }
-	open spec fn errs(self) -> Seq<Error> { reference_errs(self) }
-	open spec fn poisoned(self) -> bool { reference_poisoned(self) }
-	open spec fn resolves_to(self, x: Self::Item) -> bool { reference_resolves_to(self, x) }
-	#[verifier::external_body]
-	fn resolve(self) -> (r: Result<Self::Item, Errors>) { unimplemented!() }
-}
-pub uninterp spec fn value_type_errs(t: ValueType) -> Seq<Error>;
-pub uninterp spec fn value_type_poisoned(t: ValueType) -> bool;
-pub uninterp spec fn value_type_resolves_to(t: ValueType, x: resolved::ValueType) -> bool;
-pub uninterp spec fn value_type_pre(t: ValueType) -> bool;
-impl Resolvable for ValueType
-{
-	type Item = resolved::ValueType;
-	open spec fn pre(self) -> bool { value_type_pre(self) }
-	open spec fn errs(self) -> Seq<Error> { value_type_errs(self) }
-	open spec fn poisoned(self) -> bool { value_type_poisoned(self) }
-	open spec fn resolves_to(self, x: Self::Item) -> bool { value_type_resolves_to(self, x) }
-	#[verifier::external_body]
-	fn resolve(self) -> (r: Result<Self::Item, Errors>) { unimplemented!() }
-}
 
 // (2) `resolve_compared_type` (resolver.rs; under contract in unit U-RES, on U-RES's opaque Expression): here a DETERMINISTIC
 //     FUNCTION of its arguments and nothing more - which error it raises (E550 / E551 / E581, or an EMPTY list when an operand's
@@ -68,4 +27,37 @@ impl Typed for Expression {
 }
 impl Expression {
 	#[verifier::external_body] pub fn location(&self) -> (r: &Location) ensures *r == location_of(*self) { unimplemented!() }
+}
+
+// (4) the operator / cast drivers of resolver.rs that `Resolvable for Expression` calls (under contract in unit U-RES, on U-RES's
+//     opaque Expression): here DETERMINISTIC FUNCTIONS of their arguments and nothing more, like resolve_compared_type above.
+//     U-RES's contracts cannot be imported literally: they speak about an opaque Expression with an uninterpreted recorded type.
+pub uninterp spec fn binary_type_of(op: BinaryOp, left: Expression, right: Expression, location_of_op: Location) -> Result<resolved::ValueType, Errors>;
+pub uninterp spec fn unary_type_of(op: UnaryOp, operand: Expression, location_of_op: Location) -> Result<resolved::ValueType, Errors>;
+pub uninterp spec fn bit_cast_type_of(e: Expression, coerced_type: Option<Poisonable<ValueType>>, location: Location, location_of_keyword: Location) -> Result<resolved::ValueType, Errors>;
+pub uninterp spec fn primitive_cast_of(e: Expression, coerced_type: ValueType, location_of_type: Location) -> Result<Option<resolved::ValueType>, Errors>;
+#[verifier::external_body]
+pub fn resolve_binary_op_type(op: BinaryOp, left: &Expression, right: &Expression, location_of_op: &Location) -> (r: Result<resolved::ValueType, Errors>)
+	ensures r == binary_type_of(op, *left, *right, *location_of_op),
+{ unimplemented!() }
+#[verifier::external_body]
+pub fn resolve_unary_op_type(op: UnaryOp, operand: &Expression, location_of_op: &Location) -> (r: Result<resolved::ValueType, Errors>)
+	ensures r == unary_type_of(op, *operand, *location_of_op),
+{ unimplemented!() }
+#[verifier::external_body]
+pub fn analyze_bit_cast_and_get_coerced_type(expression: &Expression, coerced_type: Option<Poisonable<ValueType>>, location_of_combined_expression: &Location, location_of_keyword: &Location) -> (r: Result<resolved::ValueType, Errors>)
+	ensures r == bit_cast_type_of(*expression, coerced_type, *location_of_combined_expression, *location_of_keyword),
+{ unimplemented!() }
+#[verifier::external_body]
+pub fn analyze_primitive_cast_and_get_value_type(expression: &Expression, coerced_type: ValueType, location_of_type: &Location) -> (r: Result<Option<resolved::ValueType>, Errors>)
+	ensures r == primitive_cast_of(*expression, coerced_type, *location_of_type),
+{ unimplemented!() }
+// builtin.rs: the generator form of a builtin call (only its result is passed on) and the file-descriptor type it mentions
+pub mod builtin {
+	use vstd::prelude::*;
+	use super::*;
+	#[verifier::external_body] pub struct Fd { _p: u8 }
+	#[verifier::external_body]
+	pub fn resolve(builtin: Builtin, location: &Location, arguments: Vec<resolved::Expression>, return_type: resolved::ValueType) -> (r: resolved::Expression)
+	{ unimplemented!() }
 }
